@@ -32,6 +32,7 @@ RULE = (
     "contribution classes, contact states {open, persistent-stick, persistent-slip, impact}, mode, corruption kind); "
     "non-trivial = at least one constraint, compliance element, actuator or closed contact"
 )
+RULE += " Chain sessions may carry a user-defined nonholonomic (velocity-level) constraint. Fault F2 at the initial-condition fixed point (forced through the decision hook, or organic through an iteration budget of 1..3) with continue_with_unconverged on / off: assembly must raise, warn, or hand out values that satisfy the monitor."
 COMPONENTS = {
     "real": ["consistent_initial_conditions / compute_I_F", "System.assemble / set_new_initial_state / deepcopy", "Rattle (to reach states)", "all contributions"],
     "stub": ["tqdm -> SimProgress"],
